@@ -152,7 +152,8 @@ impl World {
             })
             .collect();
         let woken: Vec<bool> = self.actors.iter().map(|a| a.flag.0.load(Ordering::SeqCst)).collect();
-        json!({"occ": occ, "nr": nr, "nw": nw, "runs": rs, "act": act, "woken": woken, "prw": prw, "pww": pww})
+        let _ = (prw, pww);
+        json!({"occ": occ, "nr": nr, "nw": nw, "runs": rs, "act": act, "woken": woken})
     }
 
     fn uses_read_end(k: &str) -> bool {
@@ -267,9 +268,33 @@ impl World {
                 if (Self::uses_read_end(&k) && !self.r_open) || (Self::uses_write_end(&k) && !self.w_open) {
                     return None;
                 }
+                // one request at a time per descriptor through Concurrent (see Gen_PipeK)
+                if k.starts_with('C')
+                    && self.actors.iter().any(|x| {
+                        x.req.as_ref().is_some_and(|r| {
+                            (Self::uses_read_end(&r.k) && Self::uses_read_end(&k)) || (Self::uses_write_end(&r.k) && Self::uses_write_end(&k))
+                        })
+                    })
+                {
+                    return None;
+                }
                 let n = if matches!(k.as_str(), "SR" | "SW" | "SB" | "CRA") { 0 } else { nmap(s["n"].as_u64().unwrap() as usize) };
                 let blk = s["blk"].as_bool().unwrap_or(true);
-                let tag = self.opseq % 8;
+                // smallest tag not used by bytes in the pipe or by a request in
+                // flight (a function of the state, so equal states give equal records)
+                let mut used = [false; 8];
+                for b in self.content() {
+                    used[(b / 32) as usize] = true;
+                }
+                for x in &self.actors {
+                    if let Some(r) = &x.req {
+                        used[r.tag] = true;
+                        for b in &r.acc {
+                            used[(*b / 32) as usize] = true;
+                        }
+                    }
+                }
+                let tag = used.iter().position(|u| !u).unwrap_or(self.opseq % 8);
                 self.opseq += 1;
                 let fut = self.make_future(&k, n, tag);
                 self.actors[a0].req = Some(Req { k: k.clone(), n, blk, done: 0, tag, acc: vec![], fut });
@@ -315,6 +340,20 @@ impl World {
     }
 }
 
+fn new_sink(args: &[String]) -> Sink {
+    let path = opt(args, "--out").expect("--out");
+    Sink {
+        out: yvcommon::util::open_out(args),
+        src: Box::new(std::io::BufWriter::new(std::fs::File::create(format!("{path}.src")).expect("create .src"))),
+        origin: String::new(),
+        seen: HashSet::new(),
+        steps: 0,
+        skipped: 0,
+        records: 0,
+        panics: 0,
+    }
+}
+
 fn size_map(name: &str) -> Box<dyn Fn(usize) -> usize> {
     match name {
         "x256" => Box::new(|n| n * 256),
@@ -342,6 +381,9 @@ fn size_map(name: &str) -> Box<dyn Fn(usize) -> usize> {
 
 struct Sink {
     out: Box<dyn Write>,
+    /// line-aligned with `out`: where the record comes from ("name:history map step")
+    src: Box<dyn Write>,
+    origin: String,
     seen: HashSet<u64>,
     steps: usize,
     skipped: usize,
@@ -357,15 +399,17 @@ impl Sink {
         s.hash(&mut h);
         if self.seen.insert(h.finish()) {
             writeln!(self.out, "{s}").unwrap();
+            writeln!(self.src, "{}", self.origin).unwrap();
             self.records += 1;
         }
     }
 }
 
-fn replay_history(steps: &[Value], nactors: usize, map: &str, sink: &mut Sink) {
+fn replay_history(steps: &[Value], nactors: usize, map: &str, origin: &str, sink: &mut Sink) {
     let nmap = size_map(map);
     let mut w = World::new(nactors);
-    for s in steps {
+    for (i, s) in steps.iter().enumerate() {
+        sink.origin = format!("{origin} {map} {i}");
         let r = yvcommon::util::catch(|| w.step(s, &*nmap));
         match r {
             Ok(Some(rec)) => sink.put(rec),
@@ -386,11 +430,14 @@ pub fn krep(args: &[String]) -> i32 {
     yvcommon::util::quiet_panics();
     let nactors = opt_usize(args, "--actors", 3);
     let maps: Vec<String> = opt(args, "--maps").unwrap_or("x256,edge,edge2").split(',').map(|s| s.to_string()).collect();
-    let mut sink = Sink { out: yvcommon::util::open_out(args), seen: HashSet::new(), steps: 0, skipped: 0, records: 0, panics: 0 };
+    let name = opt(args, "--name").unwrap_or("h").to_string();
+    let mut sink = new_sink(args);
     let mut histories = 0;
+    let mut lineno = 0;
     let mut seen_h: HashSet<String> = HashSet::new();
     for line in yvcommon::util::open_in(args).lines() {
         let line = line.expect("read histories");
+        lineno += 1;
         if line.trim().is_empty() || !seen_h.insert(line.clone()) {
             continue;
         }
@@ -398,10 +445,11 @@ pub fn krep(args: &[String]) -> i32 {
         let steps = v["h"].as_array().expect("h").clone();
         histories += 1;
         for m in &maps {
-            replay_history(&steps, nactors, m, &mut sink);
+            replay_history(&steps, nactors, m, &format!("{name}:{}", lineno - 1), &mut sink);
         }
     }
     sink.out.flush().unwrap();
+    sink.src.flush().unwrap();
     println!("{}", json!({"histories": histories, "steps": sink.steps, "skipped": sink.skipped, "records": sink.records, "panics": sink.panics}));
     0
 }
@@ -416,35 +464,47 @@ pub fn krand(args: &[String]) -> i32 {
     let nactors = opt_usize(args, "--actors", 3);
     let mut rng = rand::rngs::StdRng::seed_from_u64(yvcommon::util::seed().wrapping_mul(77) + if level == "K" { 1 } else { 2 });
     let sizes = [1usize, 2, 100, 511, 512, 513, 700, 1023, 1024, 1025, 1536, 2048, 2049, 3000];
-    let mut sink = Sink { out: yvcommon::util::open_out(args), seen: HashSet::new(), steps: 0, skipped: 0, records: 0, panics: 0 };
-    for _ in 0..n {
-        let mut hist = vec![];
+    let name = opt(args, "--name").unwrap_or("rand").to_string();
+    let mut sink = new_sink(args);
+    let mut hist_out = std::io::BufWriter::new(std::fs::File::create(format!("{}.hist", opt(args, "--out").unwrap())).expect("create .hist"));
+    for hidx in 0..n {
+        let mut hist: Vec<Value> = vec![];
+        let nmap = size_map("id");
+        let mut w = World::new(nactors);
         for _ in 0..steps {
             let a = rng.gen_range(1..=nactors);
             let c = rng.gen_range(0..100);
             let size = sizes[rng.gen_range(0..sizes.len())];
-            let s = if c >= 70 && c < 90 && level == "C" {
+            let busy = w.actors[a - 1].req.is_some();
+            let s = if level == "C" && c < 20 {
                 json!({"op": "peek", "a": 0})
-            } else if c < 45 {
+            } else if c >= 96 {
+                json!({"op": if c % 2 == 0 { "closeR" } else { "closeW" }, "a": 0})
+            } else if busy {
+                json!({"op": "poll", "a": a})
+            } else {
                 let kinds: &[&str] = if level == "K" { &["R", "W", "R", "W", "SR", "SW", "SB"] } else { &["CR", "CW", "CWA", "CRA", "CR", "CW"] };
                 let k = kinds[rng.gen_range(0..kinds.len())];
                 json!({"op": "start", "a": a, "k": k, "n": size, "blk": rng.gen_bool(0.5)})
-            } else if c < 85 {
-                json!({"op": "poll", "a": a})
-            } else if c < 95 && level == "C" {
-                json!({"op": "peek", "a": 0})
-            } else if c < 97 {
-                json!({"op": "closeR", "a": 0})
-            } else if c < 99 {
-                json!({"op": "closeW", "a": 0})
-            } else {
-                json!({"op": "poll", "a": a})
             };
-            hist.push(s);
+            sink.origin = format!("{name}:{hidx} id {}", hist.len());
+            hist.push(s.clone());
+            match yvcommon::util::catch(|| w.step(&s, &*nmap)) {
+                Ok(Some(rec)) => sink.put(rec),
+                Ok(None) => sink.skipped += 1,
+                Err(msg) => {
+                    sink.panics += 1;
+                    sink.put(json!({"t": "k", "panic": msg, "op": s}));
+                    std::mem::forget(w);
+                    break;
+                }
+            }
         }
-        replay_history(&hist, nactors, "id", &mut sink);
+        writeln!(hist_out, "{}", json!({"h": hist})).unwrap();
     }
     sink.out.flush().unwrap();
+    sink.src.flush().unwrap();
+    hist_out.flush().unwrap();
     println!("{}", json!({"histories": n, "steps": sink.steps, "skipped": sink.skipped, "records": sink.records, "panics": sink.panics}));
     0
 }
